@@ -22,8 +22,11 @@ R29e watermark pairing and ownership: on every path from the store call to the e
 R29f TagsInfo.upsert keys the live map by tag name and on update overwrites value and tick_time together from the
      same message (a recorded value/time pair is one the engine reported).
 Decides the watermark discipline on all paths; the numeric behaviour for concrete message streams is value-level.
-Observation (not claimed): a run restored after an engine reconnect starts with the watermark None, so the first
-write after the restore is not throttled against the last one before it.
+R29g a restored run keeps its watermark: FromEngine._try_restore_reconnected_engine_data continues a run whose plot log already has
+     rows. The RunData it builds must get the watermark from the stored rows - a repository query that is `max` over the stored
+     tick_time of that run - otherwise the watermark is None again and the first message after the reconnect is stored whatever its
+     time: a re-sent message gives a duplicate timestamp, a late one a value older than the newest stored, an ordinary one a row
+     inside the data-log interval. (The only writers of the watermark: _persist_tag_values, and this restore with that value.)
 """
 from __future__ import annotations
 
@@ -232,6 +235,8 @@ def run(ctx) -> None:
                 inst = f"{fn.short}: {norm(st)}"
                 if fn is pf:
                     ctx.ok("R29e", inst, trivial=True)
+                elif _from_stored_maximum(ctx, prog, fn, v):
+                    ctx.ok("R29e", inst + " (the maximum stored time of the run that is being restored, R29g)")
                 else:
                     ctx.fail("R29e", fn, st, inst, f"{WATERMARK} written outside _persist_tag_values")
         for c in walk_no_nested(fn.node):
@@ -245,6 +250,23 @@ def run(ctx) -> None:
     else:
         ctx.fail("R29e", pf, rd.node, inst, "a new run does not start with an empty watermark", function=rd.qualname)
 
+    # ---------------------------------------------------------------- R29g
+    ctx.rule("R29g", "a restored run starts from the watermark of its stored rows")
+    rs = prog.func("openpectus.aggregator.aggregator:FromEngine._try_restore_reconnected_engine_data")
+    ctx.analysed(rs)
+    builds = [st for t, v, st in assigned_attrs(rs.node) if t.attr == "run_data" and isinstance(v, ast.Call) and "RunData" in norm(v.func)]
+    if not builds:
+        raise AnchorError("_try_restore_reconnected_engine_data: construction of the restored RunData not found")
+    wm = [(t, v, st) for t, v, st in assigned_attrs(rs.node) if t.attr == WATERMARK]
+    kw = [k.value for st in builds for k in st.value.keywords if k.arg == WATERMARK]
+    inst = "_try_restore_reconnected_engine_data: the restored run's watermark is the maximum stored tick_time of that run"
+    good = any(_from_stored_maximum(ctx, prog, rs, v) for t, v, st in wm) or any(_from_stored_maximum(ctx, prog, rs, v) for v in kw)
+    if good:
+        ctx.ok("R29g", inst)
+    else:
+        ctx.fail("R29g", rs, builds[0], inst, "the run is restored with an empty watermark although its plot log already has rows: interval 5, A@100, "
+                 "A@103, A@106 (106 stored), disconnect, reconnect - the re-sent A@106 is stored again (rows 100, 106, 106), a late A@103 after "
+                 "it (100, 106, 103), and an ordinary A@107 one second after the last row (throttle lost)")
     # ---------------------------------------------------------------- R29f
     up = prog.func("openpectus.aggregator.models:TagsInfo.upsert")
     ctx.analysed(up)
@@ -278,3 +300,24 @@ def run(ctx) -> None:
             ctx.fail("R29f", up, vn.ast, inst, "value and time can be updated independently")
     else:
         ctx.fail("R29f", up, up.node, inst, f"update writes {w}: value and time of the live tag no longer come from one message")
+
+
+def _from_stored_maximum(ctx, prog, fn, value) -> bool:
+    """value (an expression in fn) is the result of a repository method whose returned query takes max() over a stored tick_time."""
+    from ..util import local_all_defs
+    exprs = [value]
+    if isinstance(value, ast.Name):
+        exprs = list(local_all_defs(fn).get(value.id, []))
+    for e in exprs:
+        if isinstance(e, ast.Constant) and e.value is None:
+            continue
+        if not isinstance(e, ast.Call):
+            return False
+        ok = False
+        for callee in ctx.res.resolve_call(e, fn, cha=False):
+            txt = norm(callee.node)
+            if "max(" in txt and "tick_time" in txt and ("select(" in txt or "query(" in txt):
+                ok = True
+        if not ok:
+            return False
+    return any(isinstance(e, ast.Call) for e in exprs)
